@@ -241,9 +241,10 @@ def _canon(V, f, stores_before, facts=None, consts=False, prefer=None):
             return [rec(x) for x in n]
         if not isinstance(n, dict):
             return n
-        u = unwrap_all_casts(n)
-        if isinstance(u, dict) and u is not n:
-            return rec(u)
+        if n.get("k") == "Cast" and isinstance(n.get("e"), dict):
+            # (casts stay in the expression: `(CborType)(b & 0xE0)` is not `b & 0xE0` for the rules; texts are compared
+            # through show(), which leaves implicit ones out)
+            return {kk: (rec(vv) if kk == "e" else vv) for kk, vv in n.items() if kk not in ("l", "cv")}
         t_ = show(n)
         if t_ in txt_map and n.get("k") in ("Ref", "Member", "MCall", "Call", "Index"):
             members.add(txt_map[t_])
@@ -637,6 +638,54 @@ def _this_path(e):
     return None
 
 
+def _plain_stores(f):
+    out = []
+    for x in walk(f["body"]):
+        if x.get("k") in ("Bin", "OpCall") and x.get("op") == "=":
+            lhs = x.get("lhs") if x.get("k") == "Bin" else (x.get("args") or [None])[0]
+            rhs = x.get("rhs") if x.get("k") == "Bin" else ((x.get("args") or [None, None])[1] if len(x.get("args", [])) > 1 else None)
+            lp = _this_path(lhs) if lhs is not None else None
+            if lp:
+                out.append((lp, rhs, x))
+    return out
+
+
+def _keyed_block(n, keyed):
+    """`if (m_key_at != m_key) { effects..; m_c.a = ..; m_key_at = m_key; }` -> (stored-key member, stores, key member, effects)"""
+    if n.get("else") is not None:
+        return None
+    sts = [x for x in ir.stmts(n.get("then")) if isinstance(x, dict) and x.get("k") != "Null"]
+    if not sts:
+        return None
+    last = unwrap(sts[-1])
+    if not (isinstance(last, dict) and last.get("k") in ("Bin", "OpCall") and last.get("op") == "="):
+        return None
+    lhs = last.get("lhs") if last.get("k") == "Bin" else (last.get("args") or [None])[0]
+    rhs = last.get("rhs") if last.get("k") == "Bin" else ((last.get("args") or [None, None])[1] if len(last.get("args", [])) > 1 else None)
+    lp, rp = _this_path(lhs), _this_path(rhs)
+    if not (lp and rp and len(lp) == 1 and len(rp) == 1 and {lp[0], rp[0]} == set(keyed)):
+        return None
+    K, KEY = lp[0], rp[0]
+    effects, stores = [], {}
+    for st in sts[:-1]:
+        u = unwrap(st)
+        if isinstance(u, dict) and u.get("k") in ("Bin", "OpCall") and u.get("op") == "=":
+            l2 = u.get("lhs") if u.get("k") == "Bin" else (u.get("args") or [None])[0]
+            r2 = u.get("rhs") if u.get("k") == "Bin" else ((u.get("args") or [None, None])[1] if len(u.get("args", [])) > 1 else None)
+            p2 = _this_path(l2)
+            if p2 and p2[0] not in (K, KEY) and r2 is not None:
+                stores[p2] = r2
+                continue
+            return None
+        if isinstance(u, dict) and u.get("k") == "MCall" and isinstance(unwrap_all_casts(u.get("recv")), dict) and unwrap_all_casts(u["recv"]).get("k") == "This" and not stores:
+            effects.append(st)          # what has to happen before the values can be taken (a refill check), in front of the stores
+            continue
+        return None
+    if not stores:
+        return None
+    return K, stores, KEY, effects
+
+
 def analyse_lazy(facts, cls, methods):
     """Members resolved on demand under a validity flag:
 
@@ -648,11 +697,23 @@ def analyse_lazy(facts, cls, methods):
     rec = facts.records.get(cls) or {}
     bools = {f_["n"] for f_ in rec.get("fields", []) if (f_.get("t") or "") == "bool"}
     blocks = []
+    keyed_info = {}
     for f in methods:
         for n in walk(f["body"]):
             if n.get("k") != "If" or n.get("else") is not None:
                 continue
             c = unwrap_all_casts(n.get("cond"))
+            keyed = None
+            if isinstance(c, dict) and c.get("k") == "Bin" and c.get("op") == "!=":
+                a_, b_ = _this_path(c.get("lhs")), _this_path(c.get("rhs"))
+                if a_ and b_ and len(a_) == 1 and len(b_) == 1:
+                    keyed = (a_[0], b_[0])
+            if keyed is not None:
+                kb = _keyed_block(n, keyed)
+                if kb is not None:
+                    blocks.append((f, n, kb[0], kb[1]))
+                    keyed_info[id(n)] = kb
+                continue
             if not (isinstance(c, dict) and c.get("k") == "Un" and c.get("op") == "!"):
                 continue
             vp = _this_path(c.get("e"))
@@ -678,7 +739,16 @@ def analyse_lazy(facts, cls, methods):
     if not blocks:
         return None
     V = blocks[0][2]
-    res = {"flag": V, "defs": {}, "S": set(), "refreshers": {}, "violations": [], "blocks": [b[1] for b in blocks], "undecided": None}
+    res = {"flag": V, "defs": {}, "S": set(), "refreshers": {}, "violations": [], "blocks": [b[1] for b in blocks], "undecided": None,
+           "key": None, "effects": {}}
+    if keyed_info:
+        if len(keyed_info) != len(blocks):
+            res["undecided"] = "flag form and keyed form mixed"
+            return res
+        kb0 = next(iter(keyed_info.values()))
+        res["key"] = kb0[2]
+        for bid, kb in keyed_info.items():
+            res["effects"][bid] = kb[3]
     if any(b[2] != V for b in blocks):
         res["undecided"] = "several validity flags"
         return res
@@ -699,7 +769,20 @@ def analyse_lazy(facts, cls, methods):
         res["undecided"] = "a resolved member is computed from another resolved member"
         return res
     fi = [f_ for f_ in rec.get("fields", []) if f_["n"] == V]
-    if not fi or fi[0].get("init") is None or ir.const_value(fi[0]["init"]) != 0:
+    if res["key"] is not None:
+        # what the stored key starts as does not matter for a position that was never handed out (nullptr / 0); content owners:
+        # members the key pointer is pointed into
+        res["S"].discard(res["key"])
+        owners = set()
+        for f in methods:
+            for lp_, rhs_, node_ in _plain_stores(f):
+                if lp_ == (res["key"],):
+                    rp_ = _this_path(rhs_)
+                    if rp_ and len(rp_) == 1 and rp_[0] != V:
+                        owners.add(rp_[0])
+        res["S"] |= owners
+        res["owners"] = owners
+    elif not fi or fi[0].get("init") is None or ir.const_value(fi[0]["init"]) != 0:
         # (a constructor initialiser `m_valid(false)` in every constructor would do as well)
         ctors = [f for f in methods if f.get("ctor") and f.get("cls") == cls]
         if not ctors or not all(any(i_.get("member") == V and i_.get("init") is not None and ir.const_value(i_["init"]) == 0 for i_ in (c_.get("inits") or [])) for c_ in ctors):
@@ -713,6 +796,24 @@ def analyse_lazy(facts, cls, methods):
             rp = _this_path(sts[1]["e"])
             if rp and len(rp) == 1 and rp[0] in roots:
                 res["refreshers"][(f["qn"], tuple(f.get("sig") or ()))] = rp[0]
+
+    res["refresher_effects"] = []
+    for f, n, _, _s in blocks:
+        if (f["qn"], tuple(f.get("sig") or ())) in res["refreshers"] and res["effects"].get(id(n)):
+            res["refresher_effects"] = res["effects"][id(n)]
+    if res["refresher_effects"]:
+        # the effects can only be written out where the call is a statement of its own or the whole initialiser of a reference
+        for f in methods:
+            if (f["qn"], tuple(f.get("sig") or ())) in res["refreshers"]:
+                continue
+            for x, parents in ir.walk_with_parents(f["body"]):
+                if x.get("k") == "MCall" and isinstance(x.get("callee"), dict) and (x["callee"].get("qn"), tuple(x["callee"].get("sig") or ())) in res["refreshers"]:
+                    chain = [p_ for p_ in parents if p_.get("k") not in ("Cast", None)]
+                    par = chain[-1] if chain else None
+                    if not (isinstance(par, dict) and (par.get("k") == "Block" or (par.get("k") == "Decl" and len(par.get("vars", [])) == 1))):
+                        # (a Decl's var dict has no "k": the parent chain ends at the Decl)
+                        res["undecided"] = "%s uses the refresher inside an expression" % f["qn"].split("::")[-1]
+                        return res
 
     def is_refresher_call(x):
         return x.get("k") == "MCall" and isinstance(x.get("callee"), dict) and (x["callee"].get("qn"), tuple(x["callee"].get("sig") or ())) in res["refreshers"] and \
@@ -734,7 +835,10 @@ def analyse_lazy(facts, cls, methods):
                 lp = _this_path(lhs) if lhs is not None else None
                 rhs = x.get("rhs") if x.get("k") == "Bin" else ((x.get("args") or [None, None])[1] if len(x.get("args", [])) > 1 else None)
                 if lp and lp[0] == V:
-                    evs.append(("invalidate", x) if ir.const_value(rhs) == 0 and x.get("op") == "=" else ("badflag", x))
+                    if res["key"] is not None:
+                        evs.append(("invalidate", x) if (x.get("op") == "=" and (ir.const_value(rhs) == 0 or (isinstance(unwrap_all_casts(rhs), dict) and unwrap_all_casts(rhs).get("null")))) else ("badflag", x))
+                    else:
+                        evs.append(("invalidate", x) if ir.const_value(rhs) == 0 and x.get("op") == "=" else ("badflag", x))
                 elif lp and lp[0] in roots:
                     # a copy of the whole thing from another object of the class next to the flag and the sources is fine
                     ur = unwrap_all_casts(rhs) if rhs is not None else None
@@ -753,6 +857,11 @@ def analyse_lazy(facts, cls, methods):
                 for a in x.get("args", []):
                     ap = _this_path(a)
                     if ap and ap[0] in res["S"]:
+                        evs.append(("swrite", x, ap[0]))
+            if x.get("k") in ("MCall", "Call") and res.get("owners"):
+                for a, t in zip(x.get("args", []), (x.get("callee") or {}).get("sig", []) or []):
+                    ap = _this_path(a)
+                    if ap and ap[0] in res["owners"] and t.endswith("*") and not t.startswith("const "):
                         evs.append(("swrite", x, ap[0]))
             if x.get("k") == "Member":
                 lp = _this_path(x)
@@ -809,6 +918,7 @@ def eliminate_lazy(facts, cls, methods, res):
             for x in n:
                 if isinstance(x, dict):
                     if id(x) in block_ids:
+                        out.extend(copy.deepcopy(res.get("effects", {}).get(id(x), [])))
                         continue
                     u = unwrap(x)
                     if isinstance(u, dict) and u.get("k") in ("Bin", "OpCall") and u.get("op") == "=":
@@ -818,8 +928,10 @@ def eliminate_lazy(facts, cls, methods, res):
                             continue
                     if x.get("k") == "Decl" and len(x.get("vars", [])) == 1 and x["vars"][0].get("init") is not None and refresher_root(x["vars"][0]["init"]):
                         alias[x["vars"][0].get("id")] = refresher_root(x["vars"][0]["init"])
+                        out.extend(copy.deepcopy(res.get("refresher_effects", [])))
                         continue
                     if isinstance(u, dict) and refresher_root(u):
+                        out.extend(copy.deepcopy(res.get("refresher_effects", [])))
                         continue            # a refresher called for its effect only
                 out.append(rep(x))
             return out
